@@ -2,7 +2,7 @@
 from harness import exchange_check as xc
 
 TRUSTED_EXTRA = xc.TRUSTED_EXTRA
-PLAN = [("noprice", "small", 200, 3000), ('mixed', 'medium', 60, 1500), ('loans', 'medium', 60, 1500), ('liquidity', 'small', 30, 600)]
+PLAN = [("noprice", "small", 200, 3000), ('mixed', 'medium', 60, 1500), ('loans', 'medium', 60, 1500), ('liquidity', 'small', 30, 600), ('cancelrepay', 'small', 20, 300), ('unpriceable', 'small', 24, 300)]
 
 
 def run(chk):
